@@ -385,6 +385,11 @@ pub const K_NULL: u8 = 5;
 pub const K_STR0: u8 = 6;
 pub const K_STR1: u8 = 7;
 pub const K_STR2: u8 = 8;
+pub const K_BUILTIN: u8 = 9;
+
+fn dummy_builtin(_args: Vec<Rc<Object>>) -> Result<Rc<Object>, String> {
+    Ok(Rc::new(Object::Null))
+}
 
 pub fn key(kind: u8) -> Object {
     match kind {
@@ -394,6 +399,12 @@ pub fn key(kind: u8) -> Object {
         K_CHAR => Object::Char(sym::char_()),
         K_BOOL => Object::Bool(sym::bool_()),
         K_NULL => Object::Null,
+        K_BUILTIN => {
+            // a builtin-function key: one of two names (keys compare and hash by name)
+            use crate::object::func::BuiltinFunction;
+            let name = if sym::bool_() { "len" } else { "les" };
+            Object::Builtin(Rc::new(BuiltinFunction::new(name, dummy_builtin)))
+        }
         _ => {
             let len = (kind - K_STR0) as usize;
             let mut s = String::new();
@@ -419,6 +430,10 @@ pub fn ref_key_eq(a: &Object, b: &Object) -> bool {
         (Object::Char(x), Object::Char(y)) => *x == *y,
         (Object::Bool(x), Object::Bool(y)) => *x == *y,
         (Object::Null, Object::Null) => true,
+        (Object::Builtin(x), Object::Builtin(y)) => {
+            let (p, q) = (x.name.as_bytes(), y.name.as_bytes());
+            p.len() == q.len() && p[0] == q[0] && p[1] == q[1] && p[2] == q[2]
+        }
         (Object::Str(x), Object::Str(y)) => {
             let (p, q) = (x.as_bytes(), y.as_bytes());
             if p.len() != q.len() {
